@@ -141,6 +141,10 @@ func (p *parser) value(t reflect.Type) reflect.Value {
 		if err != nil {
 			panic(err)
 		}
+		if roMode {
+			v.SetString(roString(b))
+			break
+		}
 		// a private heap copy: string(b) of a single byte points into a table shared by the whole process
 		v.SetString(strings.Clone(string(b)))
 	case reflect.Ptr:
@@ -177,6 +181,10 @@ func (p *parser) value(t reflect.Type) reflect.Value {
 			b, err := hex.DecodeString(tok[1:])
 			if err != nil {
 				panic(err)
+			}
+			if roMode && len(b) > 0 {
+				v.Set(reflect.ValueOf(roBytes(b)).Convert(t))
+				return v
 			}
 			s := reflect.MakeSlice(t, len(b), len(b)+extra)
 			reflect.Copy(s, reflect.ValueOf(b))
